@@ -559,6 +559,14 @@ class _:
     def run(a, ins, ns, pairs=None): a.dims = dict((o_, n_) for o_, n_ in pairs) if pairs is not None else tuple(ns); return a
     def coq(ns, pairs=None): return '(OSetDims %s)' % cq_list([cq_str(x) for x in ns])
 
+@op('set_axis')
+class _:
+    def run(a, ins, r, labs, kind, name, inplace):
+        if inplace: a.set_axis(labs_np(labs, kind), axis=r, name=name); return a
+        return a.set_axis(labs_np(labs, kind), axis=r, name=name, inplace=False)
+    def coq(r, labs, kind, name, inplace):
+        return '(OSetAxis %s %s %s %s)' % (cq_axref(r), cq_kind('U' if kind == 'O' else kind), cq_labs(labs), cq_opt(name, cq_str))
+
 @op('query')
 class _:
     def run(a, ins, what):
